@@ -1,7 +1,8 @@
 //! C08 add-on — a request served *inside* a reorg: between the disconnections and the connections of one poll the
 //! tower stands lower than before. One-at-a-time histories never put a request there (after a poll the tower is never
 //! lower than it was), so this small exhaustive family does: for every reorg depth 1-3, every number of extra blocks
-//! 1-2 and every replacement block k, an add_appointment is made right before the k-th replacement block is fetched.
+//! 1-2 and every replacement block k, an add_appointment (a new one, or an update of one stored on top of the reorged
+//! blocks) is made right before the k-th replacement block is fetched.
 //! Oracle: the receipt's start_block is the tower's height at that instant (fork height + k - 1), the receipt verifies
 //! with the client's own verifier, the stored row carries the same start_block, and the appointment reads back.
 
@@ -21,6 +22,12 @@ fn v(sig: &str, msg: String) -> Violation {
 }
 
 pub fn run_one(depth: u8, extra: u8, k: u8, registered_late: bool) -> CaseReport {
+    run_one_with(depth, extra, k, registered_late, false)
+}
+
+/// `update`: the appointment was stored (with a longer blob) on top of the blocks that are reorged away; the request made
+/// inside the reorg is an update of it, and what reads back afterwards must be the update.
+pub fn run_one_with(depth: u8, extra: u8, k: u8, registered_late: bool, update: bool) -> CaseReport {
     let mut rep = CaseReport::default();
     let node = Node::new(START_HEIGHT, false);
     {
@@ -48,6 +55,13 @@ pub fn run_one(depth: u8, extra: u8, k: u8, registered_late: bool) -> CaseReport
     setup.push(Op::Poll);
     if registered_late {
         setup.push(Op::Register { u: 0 });
+    }
+    if update {
+        if !registered_late {
+            // (needs a registered user: only the late flavour stores the first version on top of the reorged blocks)
+            return rep;
+        }
+        setup.push(Op::Add { u: 0, chan: 1, dvar: 0, blob: BlobKind::Valid { len: 3, var: 0 }, delay: 42, sig: SigKind::Good });
     }
     for op in &setup {
         if let Err(e) = setup_op(&node, &mut tower, op) {
@@ -100,6 +114,12 @@ pub fn run_one(depth: u8, extra: u8, k: u8, registered_late: bool) -> CaseReport
                         rep.violations.push(v("stored-start-block-differs-from-receipt", format!("{what}: receipt {s}, stored rows {rows:?}")));
                     }
                     let back = api_call(&tower.api, &Op::Get { u: 0, chan: 1, dvar: 0, sig: SigKind::Good });
+                    if update {
+                        let want = format!("blob_len={},", crate::world::blob_of(BlobKind::Valid { len: 0, var: 0 }, &txs::dispute(SALT, 1, 0)).len());
+                        if !back.contains(&want) {
+                            rep.violations.push(v("update-accepted-inside-a-reorg-is-not-what-reads-back", format!("{what}: the update was acknowledged, get_appointment answers {back}")));
+                        }
+                    }
                     if !back.starts_with("watched(") {
                         rep.violations.push(v("accepted-inside-a-reorg-does-not-read-back", format!("{what}: get_appointment answers {back}")));
                     }
@@ -109,7 +129,7 @@ pub fn run_one(depth: u8, extra: u8, k: u8, registered_late: bool) -> CaseReport
     }
     rep.nontrivial = true;
     rep.classes = vec![format!("request-inside-reorg:depth{depth}"), if expected < tip_before { "tower-lower-than-before-the-poll".into() } else { "tower-not-lower".into() }];
-    rep.key = format!("{depth}/{extra}/{k}/{registered_late}");
+    rep.key = format!("{depth}/{extra}/{k}/{registered_late}/{update}");
     rep.sample = Some(json!({"depth": depth, "extra": extra, "k": k, "registered_on_top_of_the_reorged_blocks": registered_late}));
     drop(tower);
     let _ = std::fs::remove_dir_all(&dir);
@@ -123,14 +143,19 @@ pub fn run_all(stats: &mut Stats) -> u64 {
         for extra in 1..=2u8 {
             for k in 1..=(depth + extra) {
                 for late in [false, true] {
-                    let rep = run_one(depth, extra, k, late);
+                  for update in [false, true] {
+                    if update && !late {
+                        continue;
+                    }
+                    let rep = run_one_with(depth, extra, k, late, update);
                     n += 1;
                     stats.absorb(&rep);
                     if let Some(viol) = rep.violations.first() {
                         if !stats.failures.iter().any(|(w, _)| w.signature == viol.signature) {
-                            stats.failures.push((viol.clone(), json!({"inside_reorg": {"depth": depth, "extra": extra, "k": k, "late": late}})));
+                            stats.failures.push((viol.clone(), json!({"inside_reorg": {"depth": depth, "extra": extra, "k": k, "late": late, "update": update}})));
                         }
                     }
+                  }
                 }
             }
         }
@@ -140,5 +165,5 @@ pub fn run_all(stats: &mut Stats) -> u64 {
 
 pub fn replay(case: &Value) -> Option<CaseReport> {
     let c = case.get("inside_reorg")?;
-    Some(run_one(c["depth"].as_u64()? as u8, c["extra"].as_u64()? as u8, c["k"].as_u64()? as u8, c["late"].as_bool()?))
+    Some(run_one_with(c["depth"].as_u64()? as u8, c["extra"].as_u64()? as u8, c["k"].as_u64()? as u8, c["late"].as_bool()?, c["update"].as_bool().unwrap_or(false)))
 }
